@@ -754,7 +754,6 @@ func CrossCapture(r *core.Run) {
 	crossCapture(r, tierParams(r), info)
 }
 
-
 // ReplayCrossCapture re-runs one recorded cross capture case; ok=false if raw is not one.
 func ReplayCrossCapture(raw json.RawMessage) (isCase bool, violates bool) {
 	var c struct {
